@@ -410,16 +410,37 @@ fn shadow_feed(w: &mut World, input: RestartingInput) -> Vec<RestartingOutput> {
 /// A connection from `addr` is accepted and its session task runs to the end (the client closes
 /// right away): the REAL `accept_connection` + `PeerSession::run`, whose tail feeds PeerWithdrawn.
 async fn real_connection_ends(w: &mut World, addr: IpAddr) -> bool {
-    let listener = tokio::net::TcpListener::bind("127.0.0.1:0").await.unwrap();
-    let laddr = listener.local_addr().unwrap();
-    let sock = tokio::net::TcpSocket::new_v4().unwrap();
+    // No socket operation may panic: on a busy machine (ports in TIME_WAIT, descriptor limits) the
+    // caller falls back to feeding PeerWithdrawn the way the tail of `run` does, same observation.
+    let Some(listener) = shared_listener() else {
+        return false;
+    };
+    let Ok(laddr) = listener.local_addr() else {
+        return false;
+    };
+    let Ok(sock) = tokio::net::TcpSocket::new_v4() else {
+        return false;
+    };
     if sock.bind(SocketAddr::new(addr, 0)).is_err() {
         return false;
     }
-    let (client, server) = tokio::join!(sock.connect(laddr), listener.accept());
-    let (Ok(client), Ok((server, _))) = (client, server) else {
+    // (the listener is shared: a connection left over from an attempt that timed out is skipped)
+    let both = tokio::time::timeout(Duration::from_secs(20), async {
+        let client = sock.connect(laddr).await.ok()?;
+        let me = client.local_addr().ok()?;
+        loop {
+            let (server, from) = listener.accept().await.ok()?;
+            if from == me {
+                return Some((client, server));
+            }
+        }
+    })
+    .await;
+    let Ok(Some((client, server))) = both else {
         return false;
     };
+    // closed with a reset: thousands of these connections per run must not pile up in TIME_WAIT
+    let _ = client.set_linger(Some(Duration::from_secs(0)));
     let installed = w.global.read().await.selection_deferral.is_some();
     let Some(session) = accept_connection(&w.global, &w.tables, server, crate::fsm::Role::Passive).await
     else {
@@ -435,6 +456,26 @@ async fn real_connection_ends(w: &mut World, addr: IpAddr) -> bool {
     drop(client);
     let _ = h.await;
     true
+}
+
+/// One listening socket per harness process (bound once, duplicated for the runtime of each case): every
+/// `bind(:0)` takes an ephemeral port, and closed loopback connections hold theirs for 60 s in TIME_WAIT, so
+/// a busy box can run out of them for every process on it.
+fn shared_listener() -> Option<tokio::net::TcpListener> {
+    static L: std::sync::OnceLock<Option<std::net::TcpListener>> = std::sync::OnceLock::new();
+    let l = L
+        .get_or_init(|| {
+            for _ in 0..240 {
+                if let Ok(l) = std::net::TcpListener::bind("127.0.0.1:0") {
+                    let _ = l.set_nonblocking(true);
+                    return Some(l);
+                }
+                std::thread::sleep(Duration::from_millis(500));
+            }
+            None
+        })
+        .as_ref()?;
+    tokio::net::TcpListener::from_std(l.try_clone().ok()?).ok()
 }
 
 async fn gr_peers(global: &GlobalHandle) -> FnvHashMap<IpAddr, Vec<Family>> {
@@ -693,22 +734,37 @@ fn run_case(line: &str) -> String {
             return "(bad-case)".into();
         };
         // the whole daemon runs inside this runtime; dropping it ends every task the case started
-        let rt = tokio::runtime::Builder::new_current_thread()
-            .enable_all()
-            .build()
-            .unwrap();
+        let rt = build_rt();
         let out = rt.block_on(wire::run_wire(case));
-        rt.shutdown_background();
+        // everything the case started (the daemon's tasks, its listeners, the gRPC server) ends here
+        rt.shutdown_timeout(Duration::from_millis(200));
         return out;
     }
     let Some(case) = term.as_ref().and_then(case_of) else {
         return "(bad-case)".into();
     };
-    let rt = tokio::runtime::Builder::new_current_thread()
-        .enable_all()
-        .build()
-        .unwrap();
-    rt.block_on(run_c11(case))
+    let rt = build_rt();
+    let out = rt.block_on(run_c11(case));
+    rt.shutdown_timeout(Duration::from_millis(200));
+    out
+}
+
+/// A runtime per case.  Creating one needs an epoll instance and an eventfd: when the machine is short of
+/// descriptors for a moment this waits instead of panicking.
+fn build_rt() -> tokio::runtime::Runtime {
+    let mut tries = 0;
+    loop {
+        match tokio::runtime::Builder::new_current_thread().enable_all().build() {
+            Ok(rt) => return rt,
+            Err(e) => {
+                tries += 1;
+                if tries > 600 {
+                    panic!("cannot create a runtime: {e}");
+                }
+                std::thread::sleep(Duration::from_millis(100));
+            }
+        }
+    }
 }
 
 #[test]
@@ -723,9 +779,22 @@ fn verif_main() {
     if prop != "C11" {
         return;
     }
-    std::panic::set_hook(Box::new(|_| {}));
+    // the first few panics are reported on stderr (a case that panics is `(panic)` in the output)
+    static PANICS: std::sync::atomic::AtomicUsize = std::sync::atomic::AtomicUsize::new(0);
+    std::panic::set_hook(Box::new(|info| {
+        if PANICS.fetch_add(1, std::sync::atomic::Ordering::Relaxed) < 5 {
+            let fds = std::fs::read_dir("/proc/self/fd").map(|d| d.count()).unwrap_or(0);
+            let threads = std::fs::read_dir("/proc/self/task").map(|d| d.count()).unwrap_or(0);
+            eprintln!("verif harness panic: {info} [open fds {fds}, threads {threads}]");
+        }
+    }));
     sexp::run_lines(&inp, &out, |l| {
         let l = l.to_string();
         std::panic::catch_unwind(move || run_case(&l)).unwrap_or_else(|_| "(panic)".into())
     });
+    if std::env::var("VERIF_DIAG").is_ok() {
+        let fds = std::fs::read_dir("/proc/self/fd").map(|d| d.count()).unwrap_or(0);
+        let threads = std::fs::read_dir("/proc/self/task").map(|d| d.count()).unwrap_or(0);
+        eprintln!("verif harness end: open fds {fds}, threads {threads}");
+    }
 }
